@@ -98,7 +98,7 @@ def run_contract(args):
             'float_mode': c.opts.get('float_mode', 'FP'), 'bounded': c.opts.get('bounded')}
 
 
-def native_run(prop, items, timeout=600, stop_on_fail=False, call_timeout_s=15):
+def native_run(prop, items, timeout=900, stop_on_fail=False, call_timeout_s=10):
     job = {'repo_root': REPO_ROOT, 'verif_root': VERIF_ROOT, 'prop': prop, 'items': items, 'stop_on_fail': stop_on_fail,
            'call_timeout_s': call_timeout_s}
     env = dict(os.environ)
@@ -331,7 +331,7 @@ def check_property(prop, tier='quick', seed=0, only=None, verbose=False):
         # concordance of fully proved paths
         for w in r['witnesses']:
             run = native.get((cname, 'path:%d' % w['path']))
-            if run is None:
+            if run is None or (run.get('error') or '').startswith('skipped:'):
                 continue
             conc += 1
             if w['path'] in failed_by_path:
